@@ -242,7 +242,8 @@ class ClauseToRule(_tf.TelTransformer):
         sym  = _clingo.Function(x.name, x.arguments + [_clingo.Number(step)], x.positive)
         atom = ctx.symbols[sym]
         if atom is not None:
-            self.__head.append(atom.literal)
+            # an atom that is in the atom base without a defining rule instance has literal 0
+            self.__head.append(atom.literal if atom.literal != 0 else ctx.backend.add_atom(sym))
 
     def visit_TelShift(self, x, ctx, step):
         stp = lambda x, n, w: x
